@@ -21,7 +21,7 @@ from zipfile import ZIP_DEFLATED, ZipFile
 from ._search_indexer import _SearchIndexer
 from ._utility import _dotted_dict_to_nested_dicts, _mkdir_p
 from .errors import DestinationExistsError, StatepointParsingError
-from .job import Job
+from .job import Job, calc_id
 
 logger = logging.getLogger(__name__)
 
@@ -707,7 +707,14 @@ def _with_consistency_check(schema_function, read_statepoint_file):
         else:
             sp = schema_function(path)
             sp_default = read_statepoint_file(path)
-            if sp and sp_default and sp_default != sp:
+            # The two must be the same state point, i.e. have the same job id:
+            # 1 and 1.0 compare equal, but denote different jobs; an empty
+            # state point is a state point, too.
+            if (
+                sp is not None
+                and sp_default is not None
+                and calc_id(sp_default) != calc_id(sp)
+            ):
                 raise StatepointParsingError(
                     "Identified state point conflicts with state point in job state point file!"
                 )
